@@ -128,7 +128,7 @@ func runC01(x *mc.X) {
 	}
 	// an extension directive whose quoted argument ends in an escaped backslash, in front of the directives that matter
 	if x.Tier() == "thorough" || (r.status == 200 && r.delay == 0 && r.swr == "" && reqDir == "" && r.date == "now" && r.age == "") {
-		r.extraCC = mc.Pick(x, "resp.extension-directive-first", []string{"", `x-root="C:\\"`, `x-q="a\"b, max-age=99999"`})
+		r.extraCC = mc.Pick(x, "resp.extension-directive-first", []string{"", `x-root="C:\\"`, `x-q="a\"b, max-age=99999"`, "x-tab=\"a\tb\",\tpublic"}) // (a horizontal tab is legal inside a quoted string and as whitespace after a comma)
 	}
 	// the protocol version of the origin's response says nothing about its age or lifetime
 	proto := ""
